@@ -422,6 +422,56 @@ class Scope(object):
             return g['_caller'](form, f, *dvals)
         return run
 
+    def build_far_gen(self, lam_text, gen_text, id_gen_text):
+        """the GENERATOR is made by a helper (its non-global names are that helper's locals, i.e. cells of the generator)
+        and handed to select() / count() / exists() / max() from ANOTHER function whose locals bind the same names to decoy
+        values; pony's aggregate wrappers add their own locals (arg, args, kwargs, iterator) on the way.  Python's answer
+        is the generator's own binding."""
+        names = self.cnames + self.lnames
+        decoys = G.decode_env(self.case_decoys)
+        dnames = []
+        dvals = []
+        for n in names:
+            v = self.env[n]
+            if n in decoys:
+                d = decoys[n]
+            elif type(v) is int:
+                d = v + 17
+            elif type(v) is str:
+                d = v + 'DECOY'
+            else:
+                continue
+            dnames.append(n)
+            dvals.append(d)
+        lines = ['def _mk(%s):' % ', '.join(names),
+                 '    return %s' % lam_text,
+                 'def _mkg(_which%s):' % ''.join(', ' + n for n in names),
+                 "    if _which == 'ids': return (%s)" % id_gen_text,
+                 '    return (%s)' % gen_text,
+                 'def _caller(_form, _g%s):' % ''.join(', ' + n for n in dnames),
+                 "    if _form == 'gen_far': return select(_g)",
+                 "    if _form == 'gen_far_count': return _count(_g)",
+                 "    if _form == 'gen_far_exists': return _exists(_g)",
+                 "    if _form == 'gen_far_max': return _max(_g)",
+                 "    raise ValueError(_form)",
+                 '']
+        from pony import orm
+        g = dict(self.globals)
+        g.update({'_count': orm.count, '_exists': orm.exists, '_max': orm.max})
+        exec(compile('\n'.join(lines), '<c04 far generator>', 'exec'), g)
+        vals = [self.env[n] for n in names]
+        f = g['_mk'](*vals)
+
+        def run(form):
+            if form == 'py':
+                return f
+            which = 'ids' if form in ('gen_far_max', 'ids_obj') else 'rows'
+            gen = g['_mkg'](which, *vals)
+            if form in ('gen_obj', 'ids_obj'):
+                return gen
+            return g['_caller'](form, gen, *dvals)
+        return run
+
     def merged(self):
         """flat namespace by Python's scoping rule (used only to pre-screen the decompiler, never as the oracle)"""
         ns = dict(self.globals)
@@ -431,9 +481,30 @@ class Scope(object):
 
 
 FAR_FORMS = ('lam_far', 'filt_far', 'where_far')
-COMPILED_FORMS = ('gen', 'lam', 'filt', 'where') + FAR_FORMS
-COND_FORMS = ('str', 'str_ns', 'str_lam', 'gen', 'lam', 'filt', 'where') + FAR_FORMS
-ELT_FORMS = ('str', 'str_ns', 'gen')
+GEN_FAR_FORMS = ('gen_far', 'gen_far_count', 'gen_far_exists', 'gen_far_max')
+COMPILED_FORMS = ('gen', 'lam', 'filt', 'where') + FAR_FORMS + GEN_FAR_FORMS
+COND_FORMS = ('str', 'str_ns', 'str_lam', 'gen', 'lam', 'filt', 'where') + FAR_FORMS + GEN_FAR_FORMS
+ELT_FORMS = ('str', 'str_ns', 'gen', 'gen_far')
+# in the far generator forms the int names are spelled like the locals of pony's aggregate wrappers (make_aggrfunc)
+WRAPPER_LOCALS = {'a': 'arg', 'b': 'args', 'c': 'kwargs', 'n': 'iterator'}
+
+
+AGGREGATES = {'gen_far_count': len, 'gen_far_exists': bool, 'gen_far_max': lambda ids: max(ids) if ids else None}
+
+
+def rename_case(case, mapping):
+    """the same case with some caller-scope names spelled differently (values, scopes and decoys follow the names);
+    the renamed names are never module globals"""
+    class R(ast.NodeTransformer):
+        def visit_Name(self, node):
+            return ast.copy_location(ast.Name(mapping.get(node.id, node.id), node.ctx), node)
+    tree = R().visit(ast.parse(case['expr'], mode='eval'))
+    ren = lambda d: dict((mapping.get(k, k), v) for k, v in d.items())
+    out = dict(case, expr=ast.unparse(tree), env=ren(case['env']), scopes=ren(case['scopes']), decoys=ren(case.get('decoys', {})))
+    for new in mapping.values():
+        if out['scopes'].get(new, 'g') == 'g':
+            out['scopes'][new] = 'c'
+    return out
 
 
 def typed_equal(a, b):
@@ -462,6 +533,8 @@ def judge_l2(case, dbE=None):
         dbE = make_db()
     db, E = dbE
     form = case['form']
+    if form in GEN_FAR_FORMS:
+        case = rename_case(case, WRAPPER_LOCALS)
     res = {'status': 'ok', 'message': '', 'classes': ['L2', 'L2:' + case['kind'], 'L2:' + case['part'], 'form:' + form],
            'features': [], 'nontrivial': False}
     scope = Scope(case, E)
@@ -561,9 +634,14 @@ def judge_l2(case, dbE=None):
         body.append('return E.select().filter(_f)')
     elif form == 'where':
         body.append('return select(x for x in E).where(_f)')
-    elif form not in FAR_FORMS:
+    elif form not in FAR_FORMS + GEN_FAR_FORMS:
         raise ValueError(form)
-    run2 = scope.build_far(lam_text) if form in FAR_FORMS else scope.build(body)
+    if form in GEN_FAR_FORMS:
+        run2 = scope.build_far_gen(lam_text, gen_text, 'x.id for x in E if ' + q_expr if case['part'] == 'cond' else gen_text)
+    elif form in FAR_FORMS:
+        run2 = scope.build_far(lam_text)
+    else:
+        run2 = scope.build(body)
     pyfunc = run2('py')
 
     # ---- rows: chosen by Python evaluation so that the expected answer discriminates ------------------------------
@@ -641,7 +719,8 @@ def judge_l2(case, dbE=None):
     loud = False
     if form in COMPILED_FORMS:
         from pony.orm.decompiling import decompile
-        obj = run2('gen_obj' if form == 'gen' else 'lam_obj')
+        is_gen = form == 'gen' or form in GEN_FAR_FORMS
+        obj = run2(('ids_obj' if form == 'gen_far_max' else 'gen_obj') if is_gen else 'lam_obj')
         try:
             dtree = copy.deepcopy(decompile(obj)[0])
         except RecursionError:
@@ -650,7 +729,7 @@ def judge_l2(case, dbE=None):
             res.update(status='rejected', message='decompiler refused: %s: %s' % (type(e).__name__, e))
             res['classes'].append('rej:decompiler_refused')
             return res
-        if form == 'gen':
+        if is_gen:
             if not isinstance(dtree, ast.GeneratorExp) or len(dtree.generators) != 1:
                 res.update(status='inconclusive', message='unexpected decompiled shape')
                 return res
@@ -712,7 +791,9 @@ def judge_l2(case, dbE=None):
     with db_session:
         try:
             q = run2(form)
-            if case['part'] == 'cond':
+            if form in AGGREGATES:
+                got = q                      # count / exists / max already executed the query
+            elif case['part'] == 'cond':
                 got = sorted(o.id for o in q[:])
             else:
                 got = sorted((tuple(t) for t in q[:]), key=lambda t: t[0])
@@ -748,7 +829,10 @@ def judge_l2(case, dbE=None):
         else:
             res.update(status='fail', message='%s; unexpected %s: %s' % (where, name, err))
         return res
-    if case['part'] == 'cond':
+    if form in AGGREGATES:
+        expected = AGGREGATES[form](expected)
+        same = typed_equal(got, expected)
+    elif case['part'] == 'cond':
         same = got == expected
     else:
         same = len(got) == len(expected) and all(typed_equal(a, b) for a, b in zip(got, expected))
